@@ -32,6 +32,9 @@ def run_demo(tree, seed, meta):
         names = re.findall(r"^func (Test\w+)\(", open(dst).read(), re.M)
         pattern = "^(" + "|".join(names) + ")$"
         race = "-race" if "-race" in demo.get("run", "") else ""
+        m = re.search(r"-tags[ =]([\w,]+)", demo.get("run", ""))
+        if m:  # a demonstration that needs a build configuration of its own
+            race += " -tags " + m.group(1)
         rc, out = sh(f"bash -c 'set -o pipefail; go test -count=1 {race} -run \"{pattern}\" ./{d}/ 2>&1 | tail -40'", cwd=tree)
         os.remove(dst)
         return rc, out
